@@ -17,6 +17,7 @@ import (
 	"github.com/elastos/Elastos.ELA/core/types/interfaces"
 	"github.com/elastos/Elastos.ELA/core/types/outputpayload"
 	"github.com/elastos/Elastos.ELA/core/types/payload"
+	"github.com/elastos/Elastos.ELA/crypto"
 	"verifharness/gen"
 	"verifharness/lib/vk"
 	"verifharness/node"
@@ -63,6 +64,23 @@ func TestRegressions(tt *testing.T) {
 		exerciseScript(t, code, []byte{}, []byte("d"))
 		count([]string{"multisig-no-terminator", "multisig-n-prefix-1", "multisig-n-prefix-2", "multisig-n-half", "multisig-n1-no-terminator"}[i])
 	}
+
+	// non-canonical / off-curve public keys (x >= P aliasing a curve point, x = P,
+	// 2^256-1, 0 ...) in schnorr, standard and multisig scripts with in-range
+	// and out-of-range signature values
+	pEdge, nEdge := make([]byte, 32), make([]byte, 32)
+	crypto.DefaultParams.P.FillBytes(pEdge)
+	crypto.DefaultParams.N.FillBytes(nEdge)
+	for _, k := range hostileKeys {
+		for _, sig := range [][]byte{make([]byte, 64), append(append([]byte{}, pEdge...), make([]byte, 32)...),
+			append(make([]byte, 32), nEdge...), append(append(make([]byte, 31), 1), append(make([]byte, 31), 1)...)} {
+			exerciseScript(t, schnorrCodeKey(k), sig, []byte("d"))
+			exerciseScript(t, stdCodeKey(k), append([]byte{0x40}, sig...), []byte("d"))
+			mc := append(append(append([]byte{0x51, 33}, k...), append([]byte{33}, pubKeys[0]...)...), 0x52, 0xAE)
+			exerciseScript(t, mc, append([]byte{0x40}, sig...), []byte("d"))
+		}
+	}
+	count("hostile-public-keys")
 
 	// --- auxpow level
 	var bh common.Uint256
